@@ -372,7 +372,11 @@ func StrAtCode(s, i *Term) *Term {
 
 func StrFromCode(c *Term) *Term {
 	if c.Const {
-		return StrT(string([]byte{byte(c.CI.Int64())}))
+		// string(rune): the UTF-8 encoding of the code point (U+FFFD when it is not valid)
+		if !c.CI.IsInt64() || c.CI.Int64() < 0 || c.CI.Int64() > 0x10ffff {
+			return StrT("\uFFFD")
+		}
+		return StrT(string(rune(c.CI.Int64())))
 	}
 	return mk(SString, 0, "(str.from_code %s)", c.S)
 }
